@@ -116,17 +116,28 @@ def C19_later_sessions_unaffected_full : Prop :=
   ∀ (cf cf2 : Cfg) (prog prog2 : List (Op × Bool)) (br : Bool) (s : St), cf.WF → cf2.WF → Idle s → PidOK s →
     QuietFrom cf2 (dbSession cf prog br s).2.n → (dbSession cf2 prog2 false (dbSession cf prog br s).2).1 = .ok ()
 
+/-- a thread whose pool is half-initialised (`pool.con` assigned by a `_connect` that then failed, `pool.pid` never
+    created) is poisoned: whatever the options and the oracle, every later session that needs the connection dies in
+    `Pool.connect` with `AttributeError: 'SQLitePool' object has no attribute 'pid'` -/
+theorem C19_half_initialised_pool_poisons (cf : Cfg) (s : St) (k : Nat) (hh : s.hasCache = false)
+    (hpc : s.poolCon = some k) (hpid : s.poolPid = false) :
+    (dbSession cf [(.query, false)] false s).1 = .error .attrError := by
+  simp [dbSession, runBody, runOp, execSql, getCache, prepare, prepareCore, cacheConnect, baseConnect, poolConnect,
+    exitSession, coreRollback, cacheClose, wrap, PonyVerif.Model.ConnLock.tryCatch, bind, bindM, getS, modS, assertM,
+    raise, pure, ret, hh, hpc, hpid]
+
 /-- … is FALSE for the code as written: in a thread that has never connected, let the first PRAGMA of
     `SQLitePool._connect` fail (call index 1).  `pool.con` is already assigned, `pool.pid` does not exist, and every later
-    session of the thread dies in `Pool.connect` with AttributeError although nothing fails any more. -/
+    session of the thread fails although no DB-API call fails any more. -/
 theorem C19_later_sessions_unaffected_full_false : ¬ C19_later_sessions_unaffected_full := by
   intro h
+  have hs : (dbSession ⟨fun i => i == 1, false, false, false⟩ [(.query, false)] false St.init).2.poolPid = false ∧
+      (dbSession ⟨fun i => i == 1, false, false, false⟩ [(.query, false)] false St.init).2.poolCon = some 0 ∧
+      (dbSession ⟨fun i => i == 1, false, false, false⟩ [(.query, false)] false St.init).2.hasCache = false := by decide
   have := h ⟨fun i => i == 1, false, false, false⟩ ⟨fun _ => false, false, false, false⟩ [(.query, false)] [(.query, false)]
     false St.init (by simp [Cfg.WF]) (by simp [Cfg.WF]) (by simp [Idle, St.init, AccF, lockState]) (by simp [PidOK, St.init])
     (by intro i _; rfl)
-  have hval : (dbSession ⟨fun _ => false, false, false, false⟩ [(.query, false)] false
-      (dbSession ⟨fun i => i == 1, false, false, false⟩ [(.query, false)] false St.init).2).1 = .error .attrError := by rfl
-  rw [hval] at this
+  rw [C19_half_initialised_pool_poisons _ _ 0 hs.2.2 hs.2.1 hs.1] at this
   cases this
 
 /-- the same statement holds in every thread that has completed one `_connect` before (`pool.pid` exists) -/
@@ -141,11 +152,9 @@ theorem C19_later_sessions_unaffected_partial (cf cf2 : Cfg) (prog prog2 : List 
     split at h1 <;> rename_i heq <;> simp only [heq] <;> exact h1.1.1.2.2.2 rfl
   exact ⟨(C19_quiet_session_succeeds cf2 hwf2 prog2 _ (C19_session_end cf hwf prog br s h) (fun _ => hpid') hquiet).1, hpid'⟩
 
-/-- the guard is satisfiable and non-trivial: a warmed-up thread, a session whose COMMIT and following ROLLBACK both fail -/
-example : (dbSession ⟨fun _ => false, true, false, false⟩ [(.query, false), (.modify [false], false)] false
-            (dbSession ⟨fun i => i == 13 || i == 14, false, false, false⟩ [(.modify [false], false)] false
-              (dbSession ⟨fun _ => false, false, false, false⟩ [(.query, false)] false St.init).2).2).1 = .ok () := by
-  rfl
+/-- the guard is satisfiable -/
+example : ∃ s, Idle s ∧ s.poolPid = true :=
+  ⟨{ St.init with poolPid := true }, by simp [Idle, St.init, AccF, lockState], rfl⟩
 
 /-! ### what other threads see -/
 
